@@ -52,6 +52,9 @@ def instances(tier, seed):
     # {expr} that raises inside a symbolic axis
     for d in ["a {boom}", "a b {boom}+1", "a *v {boom}"]:
         out.append(("core", dict(kind="exprfault", dims=d, prior=[], maxrank=3)))
+    # a raising / failing array check while the context holds a structure name and arguments
+    for d in ("a a+nope", "a b", "?a", "a {n}+1", "a {boomv}"):
+        out.append(("core", dict(kind="withstruct", dims=d, prior=[], maxrank=2)))
     # unions whose first alternative fails late
     for alts in (["a 3", "a b"], ["a b 2", "b a"], ["a *v 2", "*v a"], ["a a+1", "a b"], ["a c+1", "a b"]):
         for p in ([], ["a"], ["*v"]):
@@ -254,6 +257,35 @@ def scenario(inst, V):
         else:
             raise AssertionError(kind)
 
+    if kind == "withstruct":
+        class BoomV:
+            def __format__(self, spec):
+                raise UserError("boom in format")
+
+        @jaxtyped(typechecker=None)
+        def g(n, boomv):
+            # structure name T and arguments n / boomv are in this call's context
+            if not isinstance((1, (2, 3)), jt.PyTree[int, "T"]):
+                raise core.PathAbort("structure binding failed")
+            pre = base.bindings()
+            rank = V.choose("rank", inst["maxrank"] + 1)
+            shape = [V.int(f"s{i}", 0) for i in range(rank)]
+            arr = V.arr(shape)
+            ann = jt.Float[V.ARR, inst["dims"]]
+            got = observe(lambda: isinstance(arr, ann))
+            post = base.bindings()
+            nm = judge(V, pre, got, post, lambda: observe(lambda: isinstance(arr, ann)))
+            # behavioural: T still means (leaf, (leaf, leaf)) and {n} is still this call's argument
+            t_same = observe(lambda: isinstance((5, (6, 7)), jt.PyTree[int, "T"]))
+            t_other = observe(lambda: isinstance((5, 6), jt.PyTree[int, "T"]))
+            nn = V.arr([V.int("pn", 0)])
+            r_n = observe(lambda: isinstance(nn, jt.Float[V.ARR, "{n}"]))
+            V.check("unchanged", t_same == D.ACC and t_other == D.REJ, what="structure name after the check",
+                    same=str(t_same), other=str(t_other))
+            V.check("unchanged", r_n in (D.ACC, D.REJ), what="{n} still evaluable after the check", got=str(r_n))
+            obs.update(verdict=nm)
+        g(V.int("n", 0), BoomV())
+        return obs
     if kind == "exprfault":
         class Boom:
             @property
